@@ -65,7 +65,28 @@ def drain(body, step=8192):
     return b"".join(out), None
 
 
-def parse_stream(chunks, cfg, peer=PEER, max_requests=8, step=8192):
+def drain_mixed(body, program):
+    """Read a body with a call program: a tuple of ('readline', n|None) / ('read', n) steps, the last step repeated
+    until the body is exhausted.  Same return shape as drain()."""
+    out = []
+    try:
+        i = 0
+        while True:
+            op, n = program[min(i, len(program) - 1)]
+            i += 1
+            if op == "readline":
+                d = body.readline() if n is None else body.readline(n)
+            else:
+                d = body.read(n)
+            if not d:
+                break
+            out.append(d)
+    except Exception as e:
+        return b"".join(out), e
+    return b"".join(out), None
+
+
+def parse_stream(chunks, cfg, peer=PEER, max_requests=8, step=8192, program=None):
     """Returns (requests, end_kind, end_exc_name, end_exc_text).
     requests: list of (method, uri, version, headers, body, body_err_kind, trailers, end_offset)
     end_offset (per request) = bytes pulled from the source - bytes still in the unreader buffer,
@@ -79,7 +100,7 @@ def parse_stream(chunks, cfg, peer=PEER, max_requests=8, step=8192):
     try:
         for _ in range(max_requests):
             req = next(p)
-            body, err = drain(req.body, step)
+            body, err = drain(req.body, step) if program is None else drain_mixed(req.body, program)
             if err is None:
                 off = src.pulled - len(p.unreader.buf.getvalue())
                 # chunks the parser had to pull to see the last byte of this message; pulling more means that on a live
